@@ -104,7 +104,12 @@ pub fn geti(v: &Value, k: &str) -> i64 {
     v.get(k).and_then(|x| x.as_i64()).unwrap_or(0)
 }
 pub fn getu(v: &Value, k: &str) -> u64 {
-    v.get(k).and_then(|x| x.as_u64()).unwrap_or(0)
+    // numbers above 2^31 are written as strings (TLC reads the same file and has 32-bit integers)
+    match v.get(k) {
+        Some(Value::String(s)) => s.parse().unwrap_or(0),
+        Some(x) => x.as_u64().unwrap_or(0),
+        None => 0,
+    }
 }
 pub fn gets<'a>(v: &'a Value, k: &str) -> &'a str {
     v.get(k).and_then(|x| x.as_str()).unwrap_or("")
